@@ -30,9 +30,14 @@ def run(ctx):
         if cls == "arc":
             continue                       # arc end points are C06's business
         ctx.violation("rend:" + rendcheck.vkey(d), "Renderer reuse differs from a fresh run: %s" % d.get("what"), d)
+    mc0, mc1 = ctx.mc[0], ctx.mc[1]
+    # the rasteriser a Renderer is reused with carries state of its own (raster/vec: the one-shot compositing operator):
+    # VecRast.tla / GEN_VecRast - after any sequence of fills (also into an empty rectangle), resets and operator settings
+    # the next fill composites as a fresh rasteriser's would unless the operator was set since the last fill
+    from lib import vecrastcheck
+    vr = vecrastcheck.run_vecrast(ctx, "GEN_VecRast" if quick else "GEN_VecRast_t")
     st = e["summary"]["stats"]
     rs = r["summary"]["stats"]
-    mc0, mc1 = ctx.mc[0], ctx.mc[1]
     pairs = st.get("reuse", 0) + rs.get("reuse.programs", 0)
     cov = dict(states=mc0["distinct"] + mc1["distinct"], transitions=mc0["generated"] + mc1["generated"],
                traces_validated_against_impl=pairs + st.get("roundtrips", 0),
@@ -40,7 +45,7 @@ def run(ctx):
                evaluations=e["summary"]["enc_events"] + e["summary"]["rt_events"] + r["events"],
                distinct_nontrivial=pairs,
                rule="one (A, B) pair per reused object; determinism pairs ride on every round-trip trace",
-               encoder=st, renderer=rs, renderer_totals=r["totals"])
+               encoder=st, renderer=rs, renderer_totals=r["totals"], vec_rasterizer=vr)
     return vlib.finish(ctx, "model_checking", cov, [
         "B ranges over well-formed programs only, as the property says",
         "a slice returned by an earlier Bytes() being overwritten after Reset is documented behaviour, not checked"])
